@@ -1,6 +1,7 @@
 \* negative control: an iteration that reads one entry per atomic step is NOT a snapshot (IterSnapshot must fail)
 SPECIFICATION MCSpec
 CONSTANTS
+  FlushWraps = {"flush"}
   Threads = {t1, t2}
   CallsPerThread = 2
   MaxCommitOps = 0
